@@ -119,6 +119,9 @@ Vector<std::complex<T>> permanent_laplace_cpp(
 
     // determine the concurrency of the calculation
     unsigned int n_threads = std::thread::hardware_concurrency();
+    if (n_threads == 0)
+        // hardware_concurrency() returns 0 when the value is not computable
+        n_threads = 1;
     auto concurrency = static_cast<int64_t>(n_threads * 4);
     concurrency = concurrency < idx_max ? concurrency : idx_max;
 
